@@ -76,6 +76,12 @@ def flush_arms(ck, P):
     reg = regs.get("FullFlush", set())
     fills = [c for c in fn.live_calls(r"::fill$") if c.bb in reg and mir.field_path(flow.receiver_root(fn.call_args(c)[0]))[1][-1:] == ("head",)]
     ck.decide(bool(fills), R, "FullFlush:forget-history", "head.fill(0)", "arm FullFlush no longer clears the hash heads: later matches can reference data before the restart point", where(fn))
+    if fills:
+        starts_ff = [b for b in reg if any(p == sw for p, _ in fn.preds().get(b, []))]
+        leak = flow.reaches_avoiding(fn, starts_ff, rets, cut_blocks=[c.bb for c in fills])
+        ck.decide(not leak, R, "FullFlush:forget-history:all-paths", "no path through the arm skips head.fill(0)",
+                  "a path through arm FullFlush reaches return without clearing the hash heads (the clearing has become conditional): "
+                  "after such a full flush later data can still be matched against data before the restart point", where(fn, fills[0].line))
     wr = {fp[-1] for bi, fp, root, rv, s in fn.field_writes() if bi in reg}
     ck.decide({"strstart", "block_start", "insert"} <= wr, R, "FullFlush:position-reset", "strstart/block_start/insert reset when lookahead == 0",
               "arm FullFlush no longer resets strstart/block_start/insert (writes %s)" % sorted(wr), where(fn))
@@ -84,6 +90,9 @@ def flush_arms(ck, P):
             ss = shape.dominating_sigs(fn, bi, region=reg)
             ck.decide(any(s2.rel == "Eq" and "lookahead" in s2.names and 0 in s2.consts for s2 in ss), R, "FullFlush:position-reset:cond", "only when lookahead == 0",
                       "position reset in FullFlush is not conditional on lookahead == 0", where(fn, s.get("line")))
+            extra = [mir.atom_str(s2.atom, fn) for s2 in ss if "lookahead" not in s2.names]
+            ck.decide(not extra, R, "FullFlush:position-reset:only-cond", "conditional on lookahead == 0 only",
+                      "the position reset of arm FullFlush has an additional condition (%s)" % "; ".join(extra)[:120], where(fn, s.get("line")))
     reg = regs.get("PartialFlush", set())
     al = [c for c in fn.live_calls(r"deflate::BitWriter::align$") if c.bb in reg]
     ck.decide(bool(al), R, "PartialFlush:align", "bit_writer.align()", "arm PartialFlush no longer aligns the bit writer", where(fn))
